@@ -489,6 +489,187 @@ where
 
         self.value = Some(value);''',
      'expect': {'C11': ['C11.R3']}},
+    # ---------------------------------------------------------------- C08
+    {'name': 'mpmc-remove-send-waiter-drops-value', 'file': 'src/channel/mpmc.rs',
+     'old': '''                wait_node.state = SendPollState::Unregistered;
+            }
+            SendPollState::Unregistered => {}''',
+     'new': '''                wait_node.state = SendPollState::Unregistered;
+                wait_node.value.take();
+            }
+            SendPollState::Unregistered => {}''',
+     'expect': {'C08': ['C08.R1', 'C08.R4']}},
+    {'name': 'mpmc-close-clears', 'file': 'src/channel/mpmc.rs',
+     'old': '''        wake_send_waiters(&mut self.send_waiters);
+
+        CloseStatus::NewlyClosed''',
+     'new': '''        wake_send_waiters(&mut self.send_waiters);
+        self.clear();
+
+        CloseStatus::NewlyClosed''',
+     'expect': {'C08': ['C08.R2']}},
+    {'name': 'mpmc-try-send-overwrites-oldest', 'file': 'src/channel/mpmc.rs',
+     'old': '''        } else {
+            Err(TrySendError::Full(value))
+        }''',
+     'new': '''        } else if self.send_waiters.is_empty() && self.buffer.len() > 1 {
+            let _ = self.buffer.pop();
+            self.buffer.push(value);
+            Ok(return_oldest_receive_waiter(&mut self.receive_waiters))
+        } else {
+            Err(TrySendError::Full(value))
+        }''',
+     'expect': {'C08': ['C08.R1']}},
+    {'name': 'send-cancel-takes-before-unlink', 'file': 'src/channel/channel_future.rs',
+     'old': '''            Some(channel) => {
+                channel.remove_send_waiter(&mut self.wait_node);
+                self.wait_node.value.take()
+            }
+        }
+    }
+}
+
+impl<'a, MutexType, T> Future for ChannelSendFuture<'a, MutexType, T> {''',
+     'new': '''            Some(channel) => {
+                let v = self.wait_node.value.take();
+                channel.remove_send_waiter(&mut self.wait_node);
+                v
+            }
+        }
+    }
+}
+
+impl<'a, MutexType, T> Future for ChannelSendFuture<'a, MutexType, T> {''',
+     'expect': {'C08': ['C08.R5']}},
+    {'name': 'mpmc-park-returns-value-copy-slot', 'file': 'src/channel/mpmc.rs',
+     'old': '''                    let waker =
+                        return_oldest_receive_waiter(&mut self.receive_waiters);
+                    return (Poll::Pending, None, waker);''',
+     'new': '''                    let waker =
+                        return_oldest_receive_waiter(&mut self.receive_waiters);
+                    if waker.is_none() {
+                        return (Poll::Pending, wait_node.value.take(), waker);
+                    }
+                    return (Poll::Pending, None, waker);''',
+     'expect': {'C08': ['C08.R1a', 'C08.R1']}},
+    {'name': 'mpmc-refill-forgets-value', 'file': 'src/channel/mpmc.rs',
+     'old': '''                .expect("wait_node must contain value");
+            self.buffer.push(value);
+
+            last_waiter.state = SendPollState::SendComplete;''',
+     'new': '''                .expect("wait_node must contain value");
+            if self.buffer.can_push() { self.buffer.push(value); }
+
+            last_waiter.state = SendPollState::SendComplete;''',
+     'expect': {'C08': ['C08.R1', 'C08.R4']}},
+    # ---------------------------------------------------------------- C09
+    {'name': 'mpmc-send-pushes-when-full', 'file': 'src/channel/mpmc.rs',
+     'old': '''                if !self.buffer.can_push() {
+                    // If the capacity is exhausted, register a waiter''',
+     'new': '''                if !self.buffer.can_push() && self.buffer.capacity() == 0 {
+                    // If the capacity is exhausted, register a waiter''',
+     'expect': {'C09': ['C09.R1']}},
+    {'name': 'mpmc-no-refill', 'file': 'src/channel/mpmc.rs',
+     'old': '''            let waker = self.try_copy_value_from_oldest_waiter();
+
+            Ok((val, waker))''',
+     'new': '''            let waker = if self.is_closed { self.try_copy_value_from_oldest_waiter() } else { None };
+
+            Ok((val, waker))''',
+     'expect': {'C09': ['C09.R2']}},
+    {'name': 'mpmc-refill-from-newest', 'file': 'src/channel/mpmc.rs',
+     'old': '''    fn try_copy_value_from_oldest_waiter(&mut self) -> Option<Waker> {
+        let last_waiter = self.send_waiters.remove_last();''',
+     'new': '''    fn try_copy_value_from_oldest_waiter(&mut self) -> Option<Waker> {
+        let last_waiter = self.send_waiters.remove_first();''',
+     'expect': {'C09': ['C09.R3', 'C09.R2']}},
+    {'name': 'mpmc-registered-reports-success', 'file': 'src/channel/mpmc.rs',
+     'old': '''                update_waker_ref(&mut wait_node.task, cx);
+                (Poll::Pending, None, None)''',
+     'new': '''                update_waker_ref(&mut wait_node.task, cx);
+                if self.is_closed { (Poll::Ready(()), None, None) } else { (Poll::Pending, None, None) }''',
+     'expect': {'C09': ['C09.R4']}},
+    {'name': 'mpmc-direct-handover-nonempty', 'file': 'src/channel/mpmc.rs',
+     'old': '''        if !self.buffer.is_empty() {
+            let val = self.buffer.pop();''',
+     'new': '''        if !self.buffer.is_empty() && self.send_waiters.is_empty() {
+            let val = self.buffer.pop();''',
+     'expect': {'C09': ['C09.R5']}},
+    # ---------------------------------------------------------------- C10
+    {'name': 'mpmc-try-send-no-receiver-wakeup', 'file': 'src/channel/mpmc.rs',
+     'old': '''            // Return the oldest receive waiter
+            Ok(return_oldest_receive_waiter(&mut self.receive_waiters))
+        } else {''',
+     'new': '''            // Return the oldest receive waiter
+            if self.buffer.len() > 1 { Ok(None) } else { Ok(return_oldest_receive_waiter(&mut self.receive_waiters)) }
+        } else {''',
+     'expect': {'C10': ['C10.R1']}},
+    {'name': 'mpmc-notified-receiver-dropped-silently', 'file': 'src/channel/mpmc.rs',
+     'old': '''                wait_node.state = RecvPollState::Unregistered;
+                return_oldest_receive_waiter(&mut self.receive_waiters)''',
+     'new': '''                wait_node.state = RecvPollState::Unregistered;
+                if self.buffer.is_empty() { None } else { return_oldest_receive_waiter(&mut self.receive_waiters) }''',
+     'expect': {'C10': ['C10.R2']}},
+    {'name': 'mpmc-remove-receive-waiter-result-discarded', 'file': 'src/channel/mpmc.rs',
+     'old': '''        let waker = { self.inner.lock().remove_receive_waiter(wait_node) };
+
+        if let Some(waker) = waker {
+            waker.wake();
+        }''',
+     'new': '''        let _waker = { self.inner.lock().remove_receive_waiter(wait_node) };''',
+     'expect': {'C10': ['C10.R5']}},
+    {'name': 'mpmc-park-without-receiver-wakeup', 'file': 'src/channel/mpmc.rs',
+     'old': '''                    let waker =
+                        return_oldest_receive_waiter(&mut self.receive_waiters);
+                    return (Poll::Pending, None, waker);''',
+     'new': '''                    let waker = if self.buffer.capacity() > 0 { None } else {
+                        return_oldest_receive_waiter(&mut self.receive_waiters) };
+                    return (Poll::Pending, None, waker);''',
+     'expect': {'C10': ['C10.R1']}},
+    {'name': 'mpmc-take-from-sender-keeps-waker', 'file': 'src/channel/mpmc.rs',
+     'old': '''                // Return the waiter
+                Some((val, last_sender.task.take()))''',
+     'new': '''                // Return the waiter
+                Some((val, None))''',
+     'expect': {'C10': ['C10.R3']}},
+    {'name': 'mpmc-receive-registered-no-waker-refresh', 'file': 'src/channel/mpmc.rs',
+     'old': '''                // In this case we need to update it.
+                update_waker_ref(&mut wait_node.task, cx);
+                Poll::Pending
+            }
+        }
+    }
+
+    fn remove_send_waiter(''',
+     'new': '''                // In this case we need to update it.
+                Poll::Pending
+            }
+        }
+    }
+
+    fn remove_send_waiter(''',
+     'expect': {'C10': ['C10.R6']}},
+    {'name': 'mpmc-try-receive-drops-sender-waker', 'file': 'src/channel/mpmc.rs',
+     'old': '''            Ok((val, waker)) => {
+                if let Some(waker) = waker {
+                    waker.wake();
+                }
+                Ok(val)
+            }
+            Err(e) => Err(e),
+        }
+    }
+
+    /// Returns a stream''',
+     'new': '''            Ok((val, _waker)) => {
+                Ok(val)
+            }
+            Err(e) => Err(e),
+        }
+    }
+
+    /// Returns a stream''',
+     'expect': {'C10': ['C10.R5']}},
 ]
 
 BENIGN = []
